@@ -35,6 +35,20 @@ Theorem C18_sample_round_trip :
     round_trip jv s_ufields s_usplit s_rser s_rdeser w fuel v = Some (Return v).
 Proof. exact sample_round_trip. Qed.
 
+(* what the correspondence check evaluates is covered: inside F the model's answer (value and tags) is the Spec's *)
+Theorem C18_model_is_spec :
+  forall (w : world) (v : value jv),
+    value_ok w v = true -> plain_payloads v = true -> model_round_trip w v = spec_round_trip v.
+Proof. exact sample_model_is_spec. Qed.
+
+(* F in words: defined at module level, under a dot-free name, in a module with a well-formed name, in a world where no
+   two module-level classes of one module share a name *)
+Theorem C18_fragment_is_module_level :
+  forall (w : world) (c : cls),
+    unique_names w -> In c w -> module_level c = true -> valid_module_name (c_mod c) = true -> no_sep DOT (cname c) = true ->
+    cls_ok w c = true.
+Proof. exact cls_ok_defined. Qed.
+
 (* outside F the statement is false -- known finding C18-a: the tag is built from __name__, so a serialiser class
    nested in another class cannot be found again ... *)
 Theorem C18_refuted_nested_class :
@@ -65,6 +79,8 @@ Proof. repeat split; vm_compute; reflexivity. Qed.
 Print Assumptions C18_round_trip.
 Print Assumptions C18_tag_present.
 Print Assumptions C18_sample_round_trip.
+Print Assumptions C18_model_is_spec.
+Print Assumptions C18_fragment_is_module_level.
 Print Assumptions C18_refuted_nested_class.
 Print Assumptions C18_refuted_nested_shadow.
 Print Assumptions C18_refuted_tag_not_qualified.
